@@ -280,6 +280,14 @@ func (e *epoch) deliver(p *peer, rep report) {
 	outcome := "unchanged"
 	switch rep.Dir {
 	case "ping":
+		if val, known, _ := e.cacheOf(p.id); sup && known && val == rep.Radius {
+			// The node processes a ping on a goroutine of its own after answering it; the only event to wait for is the cache
+			// showing the reported value. A report of the value the cache already shows would be "seen" at once while its
+			// processing is still pending, and could then land after (and undo) the next, different report.
+			e.r.Count("ping_reports_of_the_cached_radius_not_sent", 1)
+			p.lastStep = label
+			return
+		}
 		if sup {
 			// from now on every pong of this peer (also to pings the monitor did not start) carries the same radius
 			p.setScript(typClientInfo, payClientInfo("verif/c20", rep.Radius, []uint16{0, 65535}))
